@@ -66,6 +66,7 @@ def directed_cases(seed: int, tier: str) -> typing.List[dict]:
                 "permuted": [dict(base, order_seed=11), dict(base, order_seed=12)],
                 "abort-then-whole": [dict(base, abort_at=2), dict(base)],
                 "same-twice": [dict(base), dict(base), dict(base, entry="cli")],
+                "one-call-helper-over-edited-inputs": [{"lang": lang, "entry": "gt"}, {"lang": lang, "entry": "gt", "variant": True}, {"lang": lang, "entry": "gt"}, {"lang": lang, "entry": "gt", "omit_ser": True}],
                 "abort-mid-file-then-reuse": [dict(base, abort_at=5, abort_style="write"), dict(base, reuse=True), dict(base)],
                 "abort-on-empty-line-then-reuse": [dict(base, omit_ser=True, abort_at=1, abort_style="write", abort_file=0, abort_write=2), dict(base, omit_ser=True, reuse=True), dict(base, omit_ser=True, abort_at=1, abort_style="write", abort_file=1, abort_write=9), dict(base, omit_ser=True, reuse=True)],
                 "edited-inputs-first": [dict(base, variant=True), dict(base), dict(base, variant=True)],
@@ -463,6 +464,8 @@ def run_case(case: dict, ctx: dict) -> dict:
             if op.get("variant"):
                 op.pop("subset", None)
             op.setdefault("entry", "api")
+            if op["entry"] == "api" and not any(op.get(k) for k in ("templates", "pp", "subset", "order_seed", "reuse", "support_ns", "reserved", "share_lctx", "trim_blocks", "lstrip_blocks", "ns_types", "abort_at")) and r.sub("gt", i).chance(1, 2):
+                op["entry"] = "gt"  # nothing but defaults is asked for: the one-call helper does the same job
             ops.append(op)
 
     # ---- an edited copy of the inputs (a dependency moved to another type of identical layout), used by "variant" ops;
@@ -576,6 +579,23 @@ def run_case(case: dict, ctx: dict) -> dict:
             if op.get("entry") == "cli":
                 cli_generate(cx, op, out_dir, os.path.join(sandbox, "in-subset-%d" % i))
                 bump("ops", "cli")
+            elif op.get("entry") == "gt":
+                # nunavut.generate_types(): "the most direct way to generate code using Nunavut"
+                import pathlib
+
+                import nunavut
+
+                nunavut.generate_types(
+                    op["lang"],
+                    pathlib.Path(os.path.join(world.in_dir, op["root"])),
+                    pathlib.Path(out_dir),
+                    omit_serialization_support=bool(op.get("omit_ser")),
+                    lookup_directories=[os.path.join(world.in_dir, x) for x in op.get("lookups", [])],
+                    allow_unregulated_fixed_port_id=True,
+                    include_experimental_languages=True,
+                    embed_auditing_info=bool(op.get("audit")),
+                )
+                bump("ops", "generate_types")
             else:
                 api_generate(cx, op, out_dir)
                 bump("ops", "api")
